@@ -477,6 +477,8 @@ def run(chk, prog, tier):
     check_insert_after_probe(chk, prog)
     check_change_reported(chk, prog)
     check_scratch_cleared(chk, prog)
+    from . import c16
+    c16.check_row_retired(chk, prog)
     check_merge_args(chk, prog)
     check_merge_callback(chk, prog)
     check_nomerge(chk, prog)
